@@ -37,6 +37,10 @@ EXPLANATION += " Added: (R5) the API writes and returns the object prepare_dump 
 # --- metadata added for batch 8
 EXPLANATION += ' Added: (R8) the evaluated guard matrix (same object / error / announced copy per format and object class) as the value-level form of R2 / R3: a pre-flight that re-orders an object silently is reported whatever `allow_changes` says.'
 # --- end metadata batch 8
+# --- metadata added after the round-4 refactoring twins
+TECHNIQUE += '; evaluation of the prepare_* conversions on model objects'
+EXPLANATION += " R3: prepare_unrestricted_aminusb and prepare_segmented are interpreted on a model object that needs the conversion: PrepareDumpError without allow_changes (and no warning); with it exactly one PrepareDumpWarning that names the file, a result that is another object, and the caller's object still holding its own orbitals / basis."
+# --- end metadata round-4 twins
 TRUSTED = [
     "CPython ast parser", "numpy view-vs-copy rules as tabulated in the ownership domain",
     "attrs.evolve makes a shallow copy", "basic slicing/attribute access returns views/members",
